@@ -183,7 +183,17 @@ def build_record(shape: dict, index: int, dirty: bool = False):
     record.record_index = index
     for name in sorted(shape["genes"]):
         parts, strand = GENES[name]
-        record.add_cds_feature(DummyCDS(location=B.loc({"parts": parts, "strand": strand}), locus_tag=name,
+        location = B.loc({"parts": parts, "strand": strand})
+        if name == "g1" and index % 2:
+            # a gene running off the contig edge, as draft assemblies have them: <4..30
+            from Bio.SeqFeature import BeforePosition
+            from antismash.common.secmet.locations import FeatureLocation
+            location = FeatureLocation(BeforePosition(parts[0][0]), parts[0][1], strand)
+        if name == "g2" and index % 3 == 0:
+            from Bio.SeqFeature import AfterPosition
+            from antismash.common.secmet.locations import FeatureLocation
+            location = FeatureLocation(parts[0][0], AfterPosition(parts[0][1]), strand)
+        record.add_cds_feature(DummyCDS(location=location, locus_tag=name,
                                         translation="M" + "A" * (sum(e - s for s, e in parts) // 3 - 1)))
     for name in sorted(shape["areas"]):
         core, surrounds = AREAS[name]
@@ -217,6 +227,7 @@ def project_record(record) -> dict:
         "id": str(record.id), "seq": str(record.seq), "circular": bool(record.is_circular()),
         "skip": record.skip or "", "index": int(record.record_index or 0),
         "cds": [{"name": cds.get_name(), "loc": P.loc(cds.location), "translation": str(cds.translation),
+                 "open": [type(cds.location.start).__name__ == "BeforePosition", type(cds.location.end).__name__ == "AfterPosition"],
                  "region": cds.region.get_region_number() if cds.region else 0} for cds in record.get_cds_features()],
         "protoclusters": [{"loc": P.loc(proto.location), "core": P.loc(proto.core_location), "product": proto.product,
                            "number": proto.get_protocluster_number(), "cds": _names(proto.cds_children)}
